@@ -92,7 +92,7 @@ REGISTRY = {
                       'with a cancelled ancestor, a finished task releases '
                       'every mailbox it owns, client cancel/disconnect '
                       'remove the task from the server tables and touch no '
-                      'other client; discharged by z3 for all states',
+                      'other client; discharged by z3 for all states; a CANCEL reaching a manager from above or a server from below goes to every employee, busy or idle, and one from below a manager goes up (dispatch contracts)',
         'level_note': 'sequential per-function contracts (the two worker '
                       'threads are not interleaved here); two clauses with '
                       'a nested existential (table cleanliness of the ready '
@@ -185,7 +185,9 @@ REGISTRY = {
                       'the waiter exactly when complete (or on next()), '
                       'next() batches are disjoint and complete, and both '
                       'critical sections run inside the mailbox mutex on '
-                      'every path',
+                      'every path; handle_message of the manager and the '
+                      'server hands a RESULT from above / below to exactly '
+                      'that routing code (dispatch contracts)',
         'level_note': 'sequential contracts; thread interleavings of the '
                       'worker are covered only by the bounded interleaving '
                       'exploration (two methods, source-line granularity, '
